@@ -41,6 +41,12 @@ const VALUES: &[Val] = &[
   Val { json: "9223372036854775808", cbor: &[0x1b, 0x80, 0x00, 0x00, 0x00, 0x00, 0x00, 0x00, 0x00] },
   Val { json: "-256", cbor: &[0x38, 0xff] },
   Val { json: "-257", cbor: &[0x39, 0x01, 0x00] },
+  // small maps for group choices that share members
+  Val { json: "{\"code\":1}", cbor: &[0xa1, 0x64, b'c', b'o', b'd', b'e', 0x01] },
+  Val { json: "{\"id\":1}", cbor: &[0xa1, 0x62, b'i', b'd', 0x01] },
+  Val { json: "{\"id\":1,\"code\":1}", cbor: &[0xa2, 0x62, b'i', b'd', 0x01, 0x64, b'c', b'o', b'd', b'e', 0x01] },
+  Val { json: "{\"id\":1,\"name\":\"x\"}", cbor: &[0xa2, 0x62, b'i', b'd', 0x01, 0x64, b'n', b'a', b'm', b'e', 0x61, b'x'] },
+  Val { json: "{\"id\":\"x\",\"code\":1}", cbor: &[0xa2, 0x62, b'i', b'd', 0x61, b'x', 0x64, b'c', b'o', b'd', b'e', 0x01] },
 ];
 
 const TYPES: &[&str] = &["int", "uint", "nint", "float", "tstr", "bool", "nil", "5", "\"a\"", "0..10", "[* int]", "{* tstr => int}", "any", "number", "bstr", "true"];
@@ -224,6 +230,13 @@ pub fn find_mirror(_args: &[String]) -> i32 {
     schemas.push(format!("t = {{ k: tstr .size {} }}\n", n));
   }
   for x in ["tstr .size (1..2)", "tstr .size (2..3)", "tstr .regexp \"\u{e9}+\"", "tstr .regexp \".\"", "tstr .regexp \"..\"", "\"\u{e9}\"", "tstr .eq \"\u{e9}\"", "tstr .ne \"Zo\u{eb}\"", "0..255", "0..256", "-256..0", "uint .lt 256", "uint .le 255", "uint .gt 255", "int .ge -256", "uint .bits 255"] {
+    schemas.push(format!("t = {}\n", x));
+  }
+  for x in [
+    "{ (id: int, name: tstr) // (id: int, code: int) }", "{ id: int, name: tstr // id: int, code: int }", "{ (id: int, code: int) // (id: tstr, code: int) }",
+    "{ ? id: int, code: int }", "{ id: int, ? code: int, ? name: tstr }", "{ id: int, * tstr => any }", "{ a // code: int }\na = (id: int, name: tstr)",
+    "{ id: int } / { code: int }", "{ + tstr => int }",
+  ] {
     schemas.push(format!("t = {}\n", x));
   }
   let mut tried = 0u64;
